@@ -1,4 +1,4 @@
-import OdcGeo.Model.C18
+import OdcGeo.Model.C18Up
 namespace OdcGeo.C18.Drv
 open OdcGeo OdcGeo.IO OdcGeo.C18
 
@@ -15,6 +15,14 @@ def parseKindF? (s0 : String) : Option (Kind × Bool × Bool) :=
     else none
   k.map (fun k => (k, fc, fu))
 
+/-- cluster variant: additionally `!g` (the thread's first `Variable.get` times out and is swallowed by
+`_safe_get`), `!G` (its second one, under the lock), `!gG` (both) -/
+def parseKindG? (s0 : String) : Option ((Kind × Bool × Bool) × Bool × Bool) :=
+  if s0.endsWith "!gG" then (parseKindF? (s0.dropEnd 3).toString).map (fun k => (k, true, true))
+  else if s0.endsWith "!g" then (parseKindF? (s0.dropEnd 2).toString).map (fun k => (k, true, false))
+  else if s0.endsWith "!G" then (parseKindF? (s0.dropEnd 2).toString).map (fun k => (k, false, true))
+  else (parseKindF? s0).map (fun k => (k, false, false))
+
 def parseKind? (s : String) : Option Kind := (parseKindF? s).map (·.1)
 
 def fmtId (i : Nat) : String := if i = 0 then "\"\"" else s!"id{i}"
@@ -25,6 +33,38 @@ def fmtCall : Call → String
   | .complete i => s!"complete={fmtId i}"
 
 def kindOf (ks : List Kind) (t : Nat) : Kind := ks.getD t (.write 0)
+
+/-- operations on external collaborators (storage client, Variable, Lock) - what a macro trace shows -/
+def extLabels : List String := ["acq", "rel", "create", "upload", "complete", "vget", "vset", "vdel"]
+
+/-- run thread-local: keep stepping while the next operation is not one the scheduler switches at -/
+def macroGo {σ : Type} (S : List String) (step : σ → σ) (label : σ → String) : Nat → σ → List String → σ × List String
+  | 0, s, acc => (s, acc)
+  | n + 1, s, acc =>
+    let l := label s
+    if S.contains l || l == "-" || l == "acq!" then (s, acc)
+    else macroGo S step label n (step s) (if extLabels.contains l then acc ++ [l] else acc)
+
+/-- One scheduler step when context switches happen only at the operations in `S` (all external): the operation
+the thread is parked at plus everything up to its next operation in `S`.  Printed: the external operations
+performed (`~` = none) - internal steps (reads / writes of uploadId, private state, get_client) are not shown, so
+any number of them is the same trace. -/
+def macroStep {σ : Type} (S : List String) (step : σ → Nat → σ) (label : σ → Nat → String) (s : σ) (t : Nat) : σ × String :=
+  let l0 := label s t
+  if l0 == "-" || l0 == "acq!" then (s, s!"{t}:{l0}")
+  else
+    let r := macroGo S (fun s => step s t) (fun s => label s t) 40 (step s t) (if extLabels.contains l0 then [l0] else [])
+    (r.1, s!"{t}:{if r.2.isEmpty then "~" else "+".intercalate r.2}")
+
+def traceGen {σ : Type} (m : Option (List String)) (step : σ → Nat → σ) (label : σ → Nat → String) :
+    σ → List Nat → List String → σ × List String
+  | s, [], acc => (s, acc.reverse)
+  | s, t :: rest, acc =>
+    match m with
+    | none => traceGen m step label (step s t) rest (s!"{t}:{label s t}" :: acc)
+    | some S =>
+      let r := macroStep S step label s t
+      traceGen m step label r.1 rest (r.2 :: acc)
 
 /-- fold the schedule, collecting the label of every scheduled step -/
 def traceLocal (cfg : Local.Cfg) : Local.State → List Nat → List String → Local.State × List String
@@ -37,20 +77,22 @@ def fmtLocalOutcome : Local.PC → String
   | .faulted => "TransientError"
   | _ => "running"
 
-def runLocal (fixed : Bool) (kfs : List (Kind × Bool × Bool)) (sched : List Nat) (preset : Bool := false) : String :=
+def runLocal (fixed : Bool) (kfs : List (Kind × Bool × Bool)) (sched : List Nat) (preset : Bool := false)
+    (m : Option (List String) := none) : String :=
   let ks := kfs.map (·.1)
   let cfg : Local.Cfg := { kind := kindOf ks, recheck := fixed,
                            faultCreate := fun t => (kfs.getD t (.write 0, false, false)).2.1,
                            faultCall := fun t => (kfs.getD t (.write 0, false, false)).2.2 }
   let s0 := if preset then Local.initWithLock 1000 else Local.init
-  let (s, labels) := traceLocal cfg s0 sched []
+  let (s, labels) := traceGen m (Local.step cfg) (Local.label cfg) s0 sched []
   let outs := (List.range ks.length).map (fun t => fmtLocalOutcome (s.pc t))
   let lock := match s.held with | none => "free" | some h => toString h
   s!"{",".intercalate labels} ; {",".intercalate (s.calls.reverse.map fmtCall)} ; uid={fmtId s.uploadId} ; {",".intercalate outs} ; lock={lock}"
 
-def traceDist (cfg : Dist.Cfg) : Dist.State → List Nat → List String → Dist.State × List String
+def traceDist (spur2 : Nat → Bool) (cfg : Dist.Cfg) : Dist.State → List Nat → List String → Dist.State × List String
   | s, [], acc => (s, acc.reverse)
-  | s, t :: rest, acc => traceDist cfg (Dist.step cfg s t) rest (s!"{t}:{Dist.label cfg s t}" :: acc)
+  | s, t :: rest, acc =>
+    traceDist spur2 cfg (Dist.stepSpur2 spur2 cfg s t) rest (s!"{t}:{Dist.label cfg s t}" :: acc)
 
 def fmtDistOutcome : Dist.PC → String
   | .done => "ok"
@@ -58,12 +100,17 @@ def fmtDistOutcome : Dist.PC → String
   | .faulted => "TransientError"
   | _ => "running"
 
-def runDist (kfs : List (Kind × Bool × Bool)) (ws : List Nat) (sched : List Nat) (leftover : Option Nat := none) : String :=
+def runDist (kgs : List ((Kind × Bool × Bool) × Bool × Bool)) (ws : List Nat) (sched : List Nat) (leftover : Option Nat := none)
+    (m : Option (List String) := none) : String :=
+  let kfs := kgs.map (·.1)
   let ks := kfs.map (·.1)
+  let dflt : (Kind × Bool × Bool) × Bool × Bool := ((.write 0, false, false), false, false)
   let cfg : Dist.Cfg := { kind := kindOf ks, worker := fun t => ws.getD t 0,
                           faultCreate := fun t => (kfs.getD t (.write 0, false, false)).2.1,
-                          faultCall := fun t => (kfs.getD t (.write 0, false, false)).2.2 }
-  let (s, labels) := traceDist cfg (Dist.initAfterPrep leftover) sched []
+                          faultCall := fun t => (kfs.getD t (.write 0, false, false)).2.2,
+                          spurGet1 := fun t => (kgs.getD t dflt).2.1 }
+  let (s, labels) := traceGen m (Dist.stepSpur2 (fun t => (kgs.getD t dflt).2.2) cfg) (Dist.label cfg)
+    (Dist.initAfterPrep leftover) sched []
   let outs := (List.range ks.length).map (fun t => fmtDistOutcome (s.pc t))
   let nw := (ws.foldl max 0) + 1
   let wids := (List.range nw).map (fun w => fmtId (s.wid w))
@@ -76,10 +123,10 @@ def traceDistN (cfg : DistN.Cfg) : DistN.State → List Nat → List String → 
   | s, t :: rest, acc => traceDistN cfg (DistN.step cfg s t) rest (s!"{t}:{DistN.label cfg s t}" :: acc)
 
 /-- names are given per worker; the printed variable / lock are those of worker 0 -/
-def runDistN (ks : List Kind) (ws vn ln : List Nat) (sched : List Nat) : String :=
+def runDistN (ks : List Kind) (ws vn ln : List Nat) (sched : List Nat) (m : Option (List String) := none) : String :=
   let cfg : DistN.Cfg := { kind := kindOf ks, worker := fun t => ws.getD t 0,
                            varName := fun w => vn.getD w 0, lockName := fun w => ln.getD w 0 }
-  let (s, labels) := traceDistN cfg DistN.init sched []
+  let (s, labels) := traceGen m (DistN.step cfg) (DistN.label cfg) DistN.init sched []
   let outs := (List.range ks.length).map (fun t => fmtDistOutcome (s.pc t))
   let nw := (ws.foldl max 0) + 1
   let wids := (List.range nw).map (fun w => fmtId (s.wid w))
@@ -89,11 +136,29 @@ def runDistN (ks : List Kind) (ws vn ln : List Nat) (sched : List Nat) : String 
   let var := match vals.reverse with | [] => "N" | i :: _ => fmtId i
   s!"{",".intercalate labels} ; {",".intercalate (s.calls.reverse.map fmtCall)} ; uid={",".intercalate wids} var={var} ; {",".intercalate outs} ; lock={lock}"
 
+def insertNat (x : Nat) : List Nat → List Nat
+  | [] => [x]
+  | y :: ys => if x ≤ y then x :: y :: ys else y :: insertNat x ys
+
+/-- several objects at once (each with its own names): the shared variables are printed per distinct name -/
+def runDistObj (ks : List Kind) (ws vn ln : List Nat) (sched : List Nat) (m : Option (List String) := none) : String :=
+  let cfg : DistN.Cfg := { kind := kindOf ks, worker := fun t => ws.getD t 0,
+                           varName := fun w => vn.getD w 0, lockName := fun w => ln.getD w 0 }
+  let (s, labels) := traceGen m (DistN.step cfg) (DistN.label cfg) DistN.init sched []
+  let outs := (List.range ks.length).map (fun t => fmtDistOutcome (s.pc t))
+  let wids := (List.range vn.length).map (fun w => fmtId (s.wid w))
+  let holders := (List.range vn.length).filterMap (fun w => s.locks (cfg.lockName w))
+  let lock := match holders with | [] => "free" | h :: _ => toString h
+  let names := (vn.foldr insertNat []).eraseDups
+  let vars := names.map (fun n => match s.vars n with | none => "N" | some i => fmtId i)
+  s!"{",".intercalate labels} ; {",".intercalate (s.calls.reverse.map fmtCall)} ; uid={",".intercalate wids} var={",".intercalate vars} ; {",".intercalate outs} ; lock={lock}"
+
 def parseSeqOp? (s : String) : Option Seq.Op :=
   if s = "w" then some .write
   else if s = "f" then some .fin
   else if s = "ca" || s = "cA" then some .cancelAll
   else if s = "cc" then some .cancelCur
+  else if s = "e" then some .ensureFinal
   else if s.startsWith "c" then ((s.drop 1).toString.toNat?).map Seq.Op.cancelId
   else none
 
@@ -104,15 +169,23 @@ def fmtSCall : Seq.SCall → String
   | .list => "list"
   | .abort i => s!"abort={fmtId i}"
 
-def insertNat (x : Nat) : List Nat → List Nat
-  | [] => [x]
-  | y :: ys => if x ≤ y then x :: y :: ys else y :: insertNat x ys
-
-def runSeq (ops : List Seq.Op) : String :=
-  let (s, calls, oks) := Seq.run {} ops
+def runSeq (ops : List Seq.Op) (s0 : Seq.State := {}) : String :=
+  let (s, calls, oks) := Seq.run s0 ops
   let srt := fun (l : List Nat) => fmtList fmtId (l.foldr insertNat [])
   let res := oks.map (fun b => if b then "ok" else "NoSuchUpload")
   s!"{",".intercalate res} ; {",".intercalate (calls.map fmtSCall)} ; uid={fmtId s.uploadId} ; active={srt s.active} ; completed={srt s.completed} ; aborted={srt s.aborted}"
+
+def parseSeqKOp? (s : String) : Option SeqK.Op :=
+  if s = "X" then some .foreignStart
+  else if s = "Y" then some .foreignDone
+  else (parseSeqOp? s).map SeqK.Op.own
+
+def runSeqK (filtered : Bool) (ops : List SeqK.Op) : String :=
+  let (st, calls, oks) := SeqK.run filtered {} ops
+  let s := st.own
+  let srt := fun (l : List Nat) => fmtList fmtId (l.foldr insertNat [])
+  let res := oks.map (fun b => if b then "ok" else "NoSuchUpload")
+  s!"{",".intercalate res} ; {",".intercalate (calls.map fmtSCall)} ; uid={fmtId s.uploadId} ; active={srt s.active} ; completed={srt s.completed} ; aborted={srt s.aborted} ; foreign={srt st.foreign}"
 
 def parseBytes (s : String) : Bytes := s.toList.map Char.toNat
 
@@ -138,6 +211,29 @@ def runSink (fixed : Bool) (ws : List (Nat × Bytes)) (ps : List Nat) (keep : Bo
   let dst := match s.dst with | none => "N" | some b => "=" ++ fmtBytes b
   let parts := fmtList (fun (p : Nat × Bytes) => s!"{p.1}:{fmtBytes p.2}") (sortParts s.parts)
   s!"{err} ; dst{dst} ; parts={parts} ; dir={fmtBool s.dirExists}"
+
+def fmtUCall : Up.UCall → String
+  | .create i => s!"create={fmtId i}"
+  | .upload p i b => s!"upload:{p}={fmtId i}:{fmtBytes b}"
+  | .complete i ps => s!"complete={fmtId i}:{".".intercalate (ps.map toString)}"
+
+def fmtUErr : Option Up.UErr → String
+  | none => "ok"
+  | some e => e.toStr
+
+/-- writes, then `finalise(ps)`, then further writes; the run stops at the first call that raises -/
+def runUp (m : Nat) (ws : List (Nat × Bytes)) (ps : List Nat) (ws2 : List (Nat × Bytes)) : String :=
+  let fin := fun (s : Up.State) (res : List String) =>
+    let obj := match s.object with | none => "N" | some b => "=" ++ fmtBytes b
+    s!"{",".intercalate res} ; {",".intercalate (s.calls.reverse.map fmtUCall)} ; obj{obj} ; uid={fmtId s.uploadId} ; creates={s.creates}"
+  match Up.runWrites {} ws with
+  | (s1, some e) => fin s1 ["w:" ++ e.toStr]
+  | (s1, none) =>
+    match Up.finalise m s1 ps with
+    | (s2, some e) => fin s2 ["w:ok", "f:" ++ e.toStr]
+    | (s2, none) =>
+      match Up.runWrites s2 ws2 with
+      | (s3, e) => fin s3 ["w:ok", "f:ok", "w:" ++ fmtUErr e]
 
 /-- `dir|name|base` (`N` = no parts_base) -/
 def parseSinkCfg? (s : String) : Option SinkCfg :=
@@ -172,18 +268,55 @@ def insertStr (x : String) : List String → List String
   | [] => [x]
   | y :: ys => if x ≤ y then x :: y :: ys else y :: insertStr x ys
 
-def run (args : List String) : Option String :=
+/-- the protocol simulations; `m = some S`: macro steps with context switches at the operations `S` only -/
+def runProto (m : Option (List String)) (args : List String) : Option String :=
   match args with
   | ["local", fixed, ks, sched] => do
     let fixed ← parseBool? fixed
     let ks ← parseList? parseKindF? ks
     let sched ← parseList? parseNat? sched
-    pure (runLocal fixed ks sched)
+    pure (runLocal fixed ks sched false m)
   | ["local", fixed, ks, sched, "P"] => do
     let fixed ← parseBool? fixed
     let ks ← parseList? parseKindF? ks
     let sched ← parseList? parseNat? sched
-    pure (runLocal fixed ks sched true)
+    pure (runLocal fixed ks sched true m)
+  | ["distn", ks, ws, vn, ln, sched] => do
+    let ks ← parseList? parseKind? ks
+    let ws ← parseList? parseNat? ws
+    let vn ← parseList? parseNat? vn
+    let ln ← parseList? parseNat? ln
+    let sched ← parseList? parseNat? sched
+    pure (runDistN ks ws vn ln sched m)
+  | ["distobj", ks, ws, vn, ln, sched] => do
+    let ks ← parseList? parseKind? ks
+    let ws ← parseList? parseNat? ws
+    let vn ← parseList? parseNat? vn
+    let ln ← parseList? parseNat? ln
+    let sched ← parseList? parseNat? sched
+    pure (runDistObj ks ws vn ln sched m)
+  | ["dist", ks, ws, sched, left] => do
+    let ks ← parseList? parseKindG? ks
+    let ws ← parseList? parseNat? ws
+    let sched ← parseList? parseNat? sched
+    let left ← if left = "S" then some (some 99) else if left = "N" then some none else none
+    pure (runDist ks ws sched left m)
+  | ["dist", ks, ws, sched] => do
+    let ks ← parseList? parseKindG? ks
+    let ws ← parseList? parseNat? ws
+    let sched ← parseList? parseNat? sched
+    pure (runDist ks ws sched none m)
+  | _ => none
+
+def run (args : List String) : Option String :=
+  match args with
+  | "x" :: S :: rest => do
+    let S ← parseList? some S
+    runProto (some S) rest
+  | "local" :: _ => runProto none args
+  | "dist" :: _ => runProto none args
+  | "distn" :: _ => runProto none args
+  | "distobj" :: _ => runProto none args
   | ["msink", cfgs, ops] => do
     let cfgs ← parseList? parseSinkCfg? cfgs
     let ops ← parseList? parseSinkOp? ops
@@ -202,24 +335,28 @@ def run (args : List String) : Option String :=
   | ["seq", ops] => do
     let ops ← parseList? parseSeqOp? ops
     pure (runSeq ops)
-  | ["distn", ks, ws, vn, ln, sched] => do
-    let ks ← parseList? parseKind? ks
-    let ws ← parseList? parseNat? ws
-    let vn ← parseList? parseNat? vn
-    let ln ← parseList? parseNat? ln
-    let sched ← parseList? parseNat? sched
-    pure (runDistN ks ws vn ln sched)
-  | ["dist", ks, ws, sched, left] => do
-    let ks ← parseList? parseKindF? ks
-    let ws ← parseList? parseNat? ws
-    let sched ← parseList? parseNat? sched
-    let left ← if left = "S" then some (some 99) else if left = "N" then some none else none
-    pure (runDist ks ws sched left)
-  | ["dist", ks, ws, sched] => do
-    let ks ← parseList? parseKindF? ks
-    let ws ← parseList? parseNat? ws
-    let sched ← parseList? parseNat? sched
-    pure (runDist ks ws sched)
+  | ["seq", ops, "R"] => do
+    let ops ← parseList? parseSeqOp? ops
+    pure (runSeq ops Seq.resumed)
+  | ["seqk", filtered, ops] => do
+    let filtered ← parseBool? filtered
+    let ops ← parseList? parseSeqKOp? ops
+    pure (runSeqK filtered ops)
+  | ["up", m, ws, ps, ws2] => do
+    let m ← parseNat? m
+    let ws ← parseList? parseWrite? ws
+    let ps ← parseList? parseNat? ps
+    let ws2 ← parseList? parseWrite? ws2
+    pure (runUp m ws ps ws2)
+  | ["uploadwriter", spill] => do
+    let spill ← parseNat? spill
+    pure (match uploadWriter spill with
+          | none => "N"
+          | some W => s!"min_write_sz={W.minWrite},min_part={W.minPart},max_part={W.maxPart}")
+  | ["writerprep", e, a] => do
+    let e ← parseBool? e
+    let a ← parseBool? a
+    pure (match writerPrep e a with | none => "N" | some true => "explicit" | some false => "ambient")
   | ["sink", fixed, ws, ps, keep] => do
     let fixed ← parseBool? fixed
     let ws ← parseList? parseWrite? ws
